@@ -16,6 +16,7 @@ CONSTANTS
   MaxTicks = 1
   MaxClears = 0
   MaxWaits = 1
+  MaxDirect = 1
   MaxSetNames = 2
 INVARIANT Emit
 INVARIANT GenInv
